@@ -80,7 +80,7 @@ def wrap_int(v, ty):
 
 
 class State:
-    __slots__ = ('frames', 'heap', 'known', 'conds', 'events', 'stack', 'visited', 'entered', 'notes')
+    __slots__ = ('frames', 'heap', 'known', 'conds', 'events', 'stack', 'visited', 'entered', 'notes', 'epoch')
 
     def __init__(self):
         self.frames = {}
@@ -92,6 +92,7 @@ class State:
         self.visited = {}
         self.entered = {}
         self.notes = []
+        self.epoch = 0
 
     def copy(self):
         s = State()
@@ -104,6 +105,7 @@ class State:
         s.visited = {k: set(v) for k, v in self.visited.items()}
         s.entered = {k: set(v) for k, v in self.entered.items()}
         s.notes = list(self.notes)
+        s.epoch = self.epoch
         return s
 
 
@@ -135,7 +137,7 @@ class PathLimit(Exception):
 
 class Engine:
     def __init__(self, facts, opaque=(), inline_filter=None, max_paths=4096, max_depth=8, models=None,
-                 log_enter=False, pure=(), fold_only=None, inline_loops=()):
+                 log_enter=False, pure=(), fold_only=None, inline_loops=(), readonly=()):
         self.facts = facts
         self.opaque = set(opaque)
         self.inline_filter = inline_filter
@@ -149,6 +151,7 @@ class Engine:
         self.pure = set(PURE_FNS) | set(pure)
         self.fid = itertools.count(1)
         self.inline_loops = set(inline_loops)
+        self.readonly = set(READONLY_FNS) | set(readonly)
         self.fold_only = set(DEFAULT_FOLD_ONLY if fold_only is None else fold_only)
 
     # ---- public -------------------------------------------------------------------------------
@@ -363,6 +366,9 @@ class Engine:
             t = value_to_term(norm_value(v))
             if t[0] == 'unk' and op.get('path'):
                 return ('unk', 'const', op['path'])
+            if op.get('path') and 'promoted' not in op and t[0] == 'agg' and t[1] == 'array' and len(t[4]) >= 4:
+                NAMED_CONSTS[op['path']] = t
+                t = ('named', op['path'])
             if op.get('ty', '').startswith('&') and t[0] in ('agg', 'c') and not op['ty'].startswith("&'static str") \
                     and not op['ty'].startswith('&str'):
                 # constant behind a reference (promoted `&Piece::Pawn`, `&[..]`): pointer to constant memory
@@ -434,6 +440,7 @@ class Engine:
         if k == 'der':
             st.heap[lv] = val
             if event:
+                st.epoch += 1
                 st.events.append(('write', lv, val, fn.name if fn else None))
             return
         if k in ('fld', 'idx'):
@@ -451,6 +458,7 @@ class Engine:
                 del st.heap[key]
             st.heap[lv] = val
             if event:
+                st.epoch += 1
                 st.events.append(('write', lv, val, fn.name if fn else None))
             return
 
@@ -588,9 +596,17 @@ class Engine:
 
     def _opaque_call(self, st, fn, fid, t, name, args):
         pure = name in self.pure or any(p.search(name) for p in PURE_PATTERNS)
+        if name in self.readonly:
+            # reads mutable state but changes nothing: equal within one epoch of the path
+            val = ('call', name, tuple(args), ('e', st.epoch))
+            self._write_place(st, fn, fid, t['dest'], val)
+            if t['target'] is None:
+                return [Outcome('abort', None, st, where=(fn.name, name))]
+            return [(st, fn, fid, t['target'])]
         uid = None if pure else next(self.uid)
         val = ('call', name, tuple(args), uid)
         if not pure:
+            st.epoch += 1
             st.events.append(('call', name, tuple(args), uid, fn.name, t['span']))
             # havoc everything reachable through &mut arguments
             for a, aty in zip(args, t.get('arg_tys', [])):
@@ -666,7 +682,12 @@ def field(base, name):
     return ('fld', base, name)
 
 
+NAMED_CONSTS = {}
+
+
 def index(base, i):
+    if base[0] == 'named' and is_const(i):
+        base = NAMED_CONSTS[base[1]]
     if base[0] == 'agg' and is_const(i):
         for n, t in base[4]:
             if n == str(i[1]):
@@ -1160,11 +1181,9 @@ PATTERN_MODELS = [
     (re.compile(r'^std::convert::num::<impl std::convert::From<\w+> for \w+>::from$'), m_from_into),
 ]
 
-PURE_FNS = {
+READONLY_FNS = {
     '<std::vec::Vec<T, A> as std::ops::Deref>::deref',
     '<smallvec::SmallVec<A> as std::ops::Deref>::deref',
-    '<std::string::String as std::ops::Deref>::deref',
-    '<std::sync::Arc<T, A> as std::ops::Deref>::deref',
     'core::slice::<impl [T]>::last',
     'core::slice::<impl [T]>::iter',
     'core::slice::<impl [T]>::len',
@@ -1173,6 +1192,12 @@ PURE_FNS = {
     'smallvec::SmallVec::<A>::is_empty',
     'std::vec::Vec::<T, A>::is_empty',
     'core::slice::<impl [T]>::is_empty',
+    'chess::board::piece_set::PieceSet::get',
+}
+
+PURE_FNS = {
+    '<std::string::String as std::ops::Deref>::deref',
+    '<std::sync::Arc<T, A> as std::ops::Deref>::deref',
     '<std::string::String as std::convert::From<&str>>::from',
     'core::str::traits::<impl std::cmp::PartialEq for str>::eq',
 }
@@ -1210,7 +1235,12 @@ def show(t, depth=0):
         return show(t[1], d)
     if k == 'call':
         n = t[1].split('::')[-1] if not t[1].startswith('<') else t[1]
-        return '%s%s(%s)' % (n, ('#%d' % t[3]) if t[3] else '', ', '.join(show(a, d) for a in t[2]))
+        tag = ''
+        if isinstance(t[3], int):
+            tag = '#%d' % t[3]
+        elif isinstance(t[3], tuple):
+            tag = '@%d' % t[3][1]
+        return '%s%s(%s)' % (n, tag, ', '.join(show(a, d) for a in t[2]))
     if k == 'bin':
         return '(%s %s %s)' % (show(t[2], d), t[1], show(t[3], d))
     if k == 'un':
@@ -1240,6 +1270,8 @@ def show(t, depth=0):
         if not t[4]:
             return name
         return '%s(%s)' % (name, ', '.join(show(x, d) for _, x in t[4]))
+    if k == 'named':
+        return t[1].split('::')[-1]
     if k == 'lv':
         return 'loopvar(bb%d,_%d)' % (t[1], t[2])
     if k == 'hv':
